@@ -68,12 +68,21 @@ package processor
 // ---------------------------------------------------------------- representation invariant of the processor
 
 // wfGS: a guardian set as it arrives from chain: at most 255 keys (one-byte index on the wire).
-//@ pred wfGS(gs *common.GuardianSet) = len(gs.Keys) <= 255
+// and pairwise distinct keys (an explicit environment assumption: the Ethereum contract does
+// not enforce distinctness; with a repeated key one signature would be counted twice).
+//@ pred wfGS(gs *common.GuardianSet) = len(gs.Keys) <= 255 && (forall i in 0..len(gs.Keys) :: forall j in 0..len(gs.Keys) :: i != j ==> gs.Keys[i] != gs.Keys[j])
+// digest named by an aggregation key; a recorded signature is valid for its key's digest and signer
+//@ pure digestH(h string) = (hexdigest_loaded ? from32(unhex(h)) : from32(unhex(h)))
+//@ pred validSig(h string, sig []byte, a ethcommon.Address) = len(sig) == 65 && ecrec_ok(digestH(h), from65(sig)) && vaa.pk2addr(ecrec(digestH(h), from65(sig))) == a
+//@ pred InvSig(p *Processor) = forall h in dom(p.state.vaaSignatures) :: (forall a in dom(p.state.vaaSignatures[h].signatures) :: validSig(h, p.state.vaaSignatures[h].signatures[a], a)) && (p.state.vaaSignatures[h].ourVAA != nil ==> h == hexs(bytes32(vaa.digestOf(p.state.vaaSignatures[h].ourVAA))))
+// QuorumSigned: the property's own words - valid signatures over the VAA's digest from at
+// least quorum distinct members of ks, in strictly ascending guardian order.
+//@ pred QuorumSigned(v *vaa.VAA, ks []ethcommon.Address) = vaa.wfVAA(v) && vaa.specVerify(v, ks) && len(v.Signatures) >= 2*len(ks)/3 + 1
 // wfEntry: an aggregation entry is an allocated object with a signature map; every recorded
 // signature is 65 bytes; an entry with our own message has our own VAA.
 //@ pred wfEntry(s *vaaState) = s != nil && allocated(s) && s.signatures != nil && allocated(s.signatures)
 //@   | && (forall a in dom(s.signatures) :: len(s.signatures[a]) == 65)
-//@   | && (s.ourMsg != nil ==> s.ourVAA != nil)
+//@   | && (s.ourMsg != nil ==> s.ourVAA != nil) && (s.ourVAA != nil ==> allocated(s.ourVAA))
 //@   | && (s.gs != nil ==> wfGS(s.gs))
 //@ pred InvShape(p *Processor) = p != nil && p.state != nil && allocated(p.state) && p.state.vaaSignatures != nil && allocated(p.state.vaaSignatures) && p.db != nil
 //@   | && (forall h in dom(p.state.vaaSignatures) :: wfEntry(p.state.vaaSignatures[h]))
@@ -87,21 +96,27 @@ package processor
 //@ func (p *Processor) broadcastSignedVAA(v *vaa.VAA)
 //@   props C13 C01
 //@   requires p != nil && vaa.wfVAA(v) && len(v.Signatures) <= 255
+//@   requires [quorum-signed] marked("quorumSigned", v)
 //@   ensures [sent-once] nsent(p.sendC) == old(nsent(p.sendC)) + 1
 //@   modifies chan:[]byte, fresh lib:bytes.Buffer.b
 //@   nopanic C13
 
 //@ func (p *Processor) handleObservation(ctx context.Context, m *gossipv1.SignedObservation)
-//@   props C13
+//@   props C13 C01
 //@   requires Inv(p) && m != nil
+//@   requires InvSig(p)
 //@   ensures [inv-shape] InvShape(p)
+//@   ensures [inv-sig] InvSig(p)
+//@   at [signed.Marshal()]: mark [quorum-signed-own] quorumSigned(signed) if QuorumSigned(signed, gs.Keys)
 //@   ensures [processor-fields] unchanged("Processor.*")
 //@   modifies *
 //@   nopanic C13
 //@   replay processor_history_emptypayload.go.tmpl
 //@   loop [range gs.Keys]:
 //@     invariant [agg-len] len(agg) == len(gs.Keys)
-//@     invariant [sigs] len(sigs) <= $i && (forall k in 0..len(sigs) :: sigs[k] != nil)
+//@     invariant [sigs] len(sigs) <= $i && (forall k in 0..len(sigs) :: sigs[k] != nil && allocated(sigs[k]))
+//@     invariant [sigs-from-set] forall k in 0..len(sigs) :: 0 <= int(sigs[k].Index) && int(sigs[k].Index) < $i && indom(p.state.vaaSignatures[hash].signatures, gs.Keys[int(sigs[k].Index)]) && sigs[k].Signature == from65(p.state.vaaSignatures[hash].signatures[gs.Keys[int(sigs[k].Index)]])
+//@     invariant [sigs-ascending] forall a in 0..len(sigs) :: forall b in 0..len(sigs) :: a < b ==> int(sigs[a].Index) < int(sigs[b].Index)
 
 //@ func (p *Processor) broadcastSignature(v *vaa.VAA, signature []byte, txhash []byte)
 //@   props C13
@@ -128,9 +143,13 @@ package processor
 //@   nopanic C13
 
 //@ func (p *Processor) handleInboundSignedVAAWithQuorum(ctx context.Context, m *gossipv1.SignedVAAWithQuorum)
-//@   props C13
+//@   props C13 C01
 //@   requires Inv(p) && m != nil
+//@   requires InvSig(p)
 //@   ensures [inv-shape] InvShape(p)
+//@   ensures [inv-sig] InvSig(p)
+//@   at [p.db.StoreSignedVAA(v)]: mark [quorum-signed-inbound] quorumSigned(v) if QuorumSigned(v, p.gs.Keys)
+//@   at [p.db.StoreSignedVAA(v)]: assert [never-replaces-stored] !stored(p.db, db.idOf(v))
 //@   ensures [processor-fields] unchanged("Processor.*")
 //@   modifies *
 //@   nopanic C13
